@@ -42,6 +42,8 @@ func c06Sig(sp *storeProbes, id string, topo, fuzzy, ev int) detection.Signature
 		s.EntropyScore, s.EntropyTolerance = 0, 0.5
 	case 4: // ... and the other zero (equal as a number, inside the documented range [0,8])
 		s.EntropyScore, s.EntropyTolerance = math.Copysign(0, -1), 0.5
+	case 5: // a score that differs from ev=1 below the precision of the entropy index key (%08.4f)
+		s.EntropyScore, s.EntropyTolerance = 4.999961, 0.5
 	default: // the score of ev=1 with a narrow tolerance: an update that changes the tolerance only
 		s.EntropyScore, s.EntropyTolerance = 4.99996, 0.05
 	}
@@ -64,7 +66,7 @@ func c06Ops(sp *storeProbes) []storeOp {
 		s := c06Sig(sp, id, 0, 0, 2)
 		ops = append(ops, storeOp{Kind: "add", Sigs: []detection.Signature{s}, Name: "Add(" + s.Name + ")"})
 	}
-	for _, ev := range []int{3, 4} {
+	for _, ev := range []int{3, 4, 5} {
 		s := c06Sig(sp, "A", 0, 0, ev)
 		ops = append(ops, storeOp{Kind: "add", Sigs: []detection.Signature{s}, Name: "Add(" + s.Name + ")"})
 	}
